@@ -17,12 +17,10 @@ Definition py_round (x : Q) : Q :=
   | Gt => inject_Z (f + 1)
   | Eq => if Z.even f then inject_Z f else inject_Z (f + 1)
   end.
-(* x.limit_denominator(2) == x  <=>  the reduced denominator is 1 or 2 *)
+(* x.limit_denominator(2) == x  <=>  the denominator in lowest terms is 1 or 2
+   <=>  2x is an integer *)
 Definition py_den_le2 (x : Q) : bool :=
-  match Qden (Qred x) with
-  | 1%positive | 2%positive => true
-  | _ => false
-  end.
+  Z.eqb ((2 * Qnum x) mod (Zpos (Qden x))) 0.
 Definition py_pow (b : Q) (e : Z) : Q := Qpower b e.       (* b ** e, e >= 0 *)
 Definition py_gt (a b : Q) : bool := negb (Qle_bool a b).
 Definition py_ge (a b : Q) : bool := Qle_bool b a.
